@@ -419,7 +419,8 @@ def run_session(ctx, w, dev, cf, rec, si, s, SyncCrazyflie):
         if exc is None and s['final']:
             ok, _, exc2 = ctx.bounded(scf.wait_for_params, 2 * BOUND, 'scf.wait_for_params')
             if not ok:
-                late(ctx, si, '6', 'final-wait_for_params-hang', 'fault-free wait_for_params did not return')
+                late(ctx, si, '6', 'final-wait_for_params-hang', 'fault-free wait_for_params did not return',
+                     [(t['thread'], t['waiting_on'], t['stack'][-900:]) for t in sim.describe_threads()])
                 return
     else:
         ok, _, exc = ctx.bounded(lambda: cf.open_link(uri), BOUND, 'cf.open_link')
